@@ -1,5 +1,6 @@
 /* units/veru_cmp.c - compaction decision functions on input lists of ANY length (group "veru")
  *   ver2.deletions.u   ldb_compaction_add_input_deletions: the edit removes exactly the input files
+ *   ver2.base.u        ldb_compaction_is_base_level_for_key: one arbitrary watched level >= level+2 with any number of files
  *   ver2.stop.u        ldb_compaction_should_stop_before: grandparent-overlap accounting over any number of grandparents
  */
 #include "units/veru_model.h"
@@ -92,5 +93,56 @@ void h_should_stop_before_u(void) {
   ASSUME(g_opt.max_file_size <= SZ50);
   ASSUME(!KEY_LE_L(g_fo) && (g_k >= g_n || KEY_LE_L(g_fk)) && g_fo.file_size <= SZMAX && g_fk.file_size <= SZMAX);
   ldb_compaction_should_stop_before(&g_cmpn, &g_key);
+  CANARY();
+}
+
+/* ======================================================================
+ * ver2.base.u - is_base_level_for_key (C01, C06).  One arbitrary level g_lvl is WATCHED: it holds g_n files, its pointer starts
+ * at g_gi0; Skolem witness g_k = first position >= g_gi0 whose largest user key is >= the probe key (g_k == g_n: none); the
+ * positions in between hold a window object of their own (g_fj: every untracked file of the WATCHED level) with largest user key < key (levels are sorted, keys are presented in ascending order).
+ * Every other level holds any number of untracked files (window, arbitrary) and an arbitrary pointer.
+ * ====================================================================== */
+#define CONTAINS(f) (SU(f) <= g_bqr && g_bqr <= LU(f))
+#define WATCHED_ACTIVE (g_lvl >= g_cmpn.level + 2)
+#define LEN_OK(l) (g_cmpn.level_ptrs[l] <= g_ver.files[l].length)
+int c_is_base_level_u(ldb_compaction_t *c, const ldb_slice_t *user_key)
+__CPROVER_requires(c == &g_cmpn && user_key == &g_bq && g_cmpn.input_version == &g_ver && g_cmpn.level >= 0 && g_cmpn.level <= LDB_NUM_LEVELS - 2)
+__CPROVER_requires(g_bq.size == g_bqr && g_bqr < RMAX && g_lvl >= 0 && g_lvl < LDB_NUM_LEVELS && g_ver.files[g_lvl].length == g_n && g_n <= NMAX)
+__CPROVER_requires(LEN_OK(0) && LEN_OK(1) && LEN_OK(2) && LEN_OK(3) && LEN_OK(4) && LEN_OK(5) && LEN_OK(6))
+__CPROVER_requires(g_cmpn.level_ptrs[g_lvl] == g_gi0 && g_gi0 <= g_k && g_k <= g_n && g_pl >= 0 && g_pl < LDB_NUM_LEVELS && g_cmpn.level_ptrs[g_pl] == g_lp0)
+__CPROVER_requires(SHAPE(g_fo) && SHAPE(g_fk) && SHAPE(g_fj) && LU(g_fj) < g_bqr && (g_k >= g_n || LU(g_fk) >= g_bqr))
+__CPROVER_assigns(__CPROVER_object_upto(g_cmpn.level_ptrs, sizeof(g_cmpn.level_ptrs)), FO_WINDOW, g_fj, CMP_GHOST)
+__CPROVER_ensures(FO_TOKENS)
+__CPROVER_ensures(__CPROVER_return_value == 0 || __CPROVER_return_value == 1)
+/* a file of a level >= level+2 that contains the key makes the answer 0 (arbitrary watched level; its candidate file is the witness) */
+__CPROVER_ensures(!(WATCHED_ACTIVE && g_k < g_n && CONTAINS(g_fk)) || __CPROVER_return_value == 0)
+/* answer 0 only with a witness: the file examined last contains the key */
+__CPROVER_ensures(__CPROVER_return_value != 0 || (g_last_y == TOK_KS ? (WATCHED_ACTIVE && g_k < g_n && CONTAINS(g_fk)) : (g_last_y == TOK_OS && CONTAINS(g_fo))))
+/* answer 1: the watched level was scanned up to its candidate, which does not contain the key */
+__CPROVER_ensures(__CPROVER_return_value != 1 || !WATCHED_ACTIVE || (g_cmpn.level_ptrs[g_lvl] == g_k && !(g_k < g_n && CONTAINS(g_fk))))
+/* the pointers only move forward and keep their meaning for the next (larger) key; levels the compaction itself reads or writes are never consulted */
+__CPROVER_ensures(g_cmpn.level_ptrs[g_lvl] >= g_gi0 && g_cmpn.level_ptrs[g_lvl] <= g_k)
+__CPROVER_ensures(WATCHED_ACTIVE || g_cmpn.level_ptrs[g_lvl] == g_gi0)
+__CPROVER_ensures(g_pl >= g_cmpn.level + 2 ? g_cmpn.level_ptrs[g_pl] >= g_lp0 : g_cmpn.level_ptrs[g_pl] == g_lp0)
+__CPROVER_ensures(LEN_OK(0) && LEN_OK(1) && LEN_OK(2) && LEN_OK(3) && LEN_OK(4) && LEN_OK(5) && LEN_OK(6))
+;
+void h_is_base_level_u(void) {
+  IN_SIZE(in_n); IN_SIZE(in_k); IN_SIZE(in_gi); IN_INT(in_level); IN_INT(in_watch); IN_INT(in_pl); IN_SIZE(in_ocap);
+  ASSUME(in_n <= NMAX && in_gi <= in_k && in_k <= in_n && in_ocap <= NMAX);
+  ASSUME(in_level >= 0 && in_level <= LDB_NUM_LEVELS - 2 && in_watch >= 0 && in_watch < LDB_NUM_LEVELS && in_pl >= 0 && in_pl < LDB_NUM_LEVELS);
+  mk_world();
+  g_n = in_n; g_k = in_k; g_j = in_n; g_lvl = in_watch; g_pl = in_pl; g_ocap = in_ocap;
+  g_oitems = mk_items(in_ocap, in_ocap, in_ocap);
+#define MK_LV(l) g_ver.files[l].items = g_oitems; g_ver.files[l].length = nondet_size(); ASSUME(g_ver.files[l].length <= in_ocap); g_cmpn.level_ptrs[l] = nondet_size()
+  MK_LV(0); MK_LV(1); MK_LV(2); MK_LV(3); MK_LV(4); MK_LV(5); MK_LV(6);
+  { void **wi = malloc(in_n * sizeof(void *)); ASSUME(wi != NULL); __CPROVER_array_set(wi, (void *)&g_fj); if (in_k < in_n) wi[in_k] = &g_fk; g_ver.files[in_watch].items = wi; } g_ver.files[in_watch].length = in_n; g_ver.files[in_watch].alloc = in_n;
+  g_cmpn.input_version = &g_ver; g_cmpn.level = in_level;
+  g_gi0 = in_gi; g_cmpn.level_ptrs[in_watch] = in_gi;
+  ASSUME(LEN_OK(0) && LEN_OK(1) && LEN_OK(2) && LEN_OK(3) && LEN_OK(4) && LEN_OK(5) && LEN_OK(6));
+  g_lp0 = g_cmpn.level_ptrs[in_pl];
+  g_bqr = nondet_size(); ASSUME(g_bqr < RMAX);
+  g_bq.data = TOK_KEY; g_bq.size = g_bqr; g_bq.alloc = 0;
+  ASSUME((g_k >= g_n || LU(g_fk) >= g_bqr) && LU(g_fj) < g_bqr);
+  ldb_compaction_is_base_level_for_key(&g_cmpn, &g_bq);
   CANARY();
 }
